@@ -39,7 +39,7 @@ def sql_defaults(t):
 
 
 MARKERS = [("plain", ""), ("pk", "[PK] "), ("fk", "[FK(other_tbl.id)] ")]
-COLNAMES = ["alpha", "id", "dataset_name", "x_id", "größe"]
+COLNAMES = ["alpha", "id", "dataset_name", "x_id", "größe", "from_", "type"]  # the last two: a keyword plus underscore, a builtin
 
 
 def sigma():
